@@ -1,0 +1,8 @@
+//go:build verif
+// +build verif
+
+package core
+
+// VerifTreeTotalSize exposes the size counter of the main region tree (only reachable through the
+// truncating GetAverageRegionSize otherwise). Verification hook for property C07; add-only.
+func (r *RegionsInfo) VerifTreeTotalSize() int64 { return r.tree.TotalSize() }
